@@ -1,9 +1,11 @@
 #!/bin/sh
-# runs every check's thorough tier once (seed from $1, default 1); meant for `vp run --with-repo -- tools/thorough.sh`
+# runs every check's thorough tier once (seed from $1, default 1); meant for `vp run --with-repo -- tools/thorough.sh <seed> [Cxx ...]` (--with-repo: the run gets its own snapshot of /repo, so that seeded changes tried in /repo meanwhile do not leak into it)
 cd "$(dirname "$0")/.."
 [ -n "${VP_RUN_REPO:-}" ] && export VERIF_REPO=$VP_RUN_REPO
 S=${1:-1}
-for p in C01 C02 C03 C04 C05 C06 C07 C08 C09 C10 C11 C12 C13 C14 C15 C16 C17 C18 C19 C20; do
+[ $# -gt 0 ] && shift
+PROPS=${*:-C01 C02 C03 C04 C05 C06 C07 C08 C09 C10 C11 C12 C13 C14 C15 C16 C17 C18 C19 C20}
+for p in $PROPS; do
   start=$(date +%s)
   VERIF_SEED=$S ./vcheck $p --tier thorough > /tmp/thorough-$p.$$ 2>&1; rc=$?
   grep -E "^$p tier" /tmp/thorough-$p.$$
